@@ -24,6 +24,7 @@ import (
 	"fmt"
 	"runtime"
 	"sync"
+	"sync/atomic"
 	"testing"
 	"testing/synctest"
 	"time"
@@ -169,7 +170,16 @@ type c12Run struct {
 
 	clause, detail string
 	sink           uint64
+
+	// real scheduler only: calls is bumped before and after every start call (odd = a call is in
+	// progress); the watchdog of c12Exec ends the case when one call stays in progress for
+	// c12BlockedTicks of its one-second ticks (ticks, not wall-clock differences: a stopped
+	// process does not accumulate them).
+	calls   atomic.Int64
+	blocked atomic.Bool
 }
+
+const c12BlockedTicks = 45
 
 func (x *c12Run) lab(l string) {
 	if x.dry {
@@ -249,6 +259,7 @@ func (x *c12Run) start(k int, h uint64, r uint32) {
 	}
 	x.lab("kind:" + c12KindName[k])
 	if !x.dry {
+		x.calls.Add(1)
 		switch k {
 		case c12Proposal:
 			t.ch, t.cancel = x.rt.ProposalTimer(x.ctx, h, r)
@@ -258,6 +269,10 @@ func (x *c12Run) start(k int, h uint64, r uint32) {
 			t.ch, t.cancel = x.rt.PrecommitDelayTimer(x.ctx, h, r)
 		default:
 			t.ch, t.cancel = x.rt.CommitWaitTimer(x.ctx, h, r)
+		}
+		x.calls.Add(1)
+		if x.blocked.Load() {
+			x.failf("start-never-served", "%v: the start call was not served within %d watchdog ticks (1 s each) although the previous timer had been cancelled or had elapsed; the call only returned because the watchdog cancelled the context", t, c12BlockedTicks)
 		}
 		if t.ch == nil || t.cancel == nil {
 			x.failf("start-returns-live-timer", "%v: nil channel or nil cancel func although the context is live", t)
@@ -542,6 +557,33 @@ func c12Exec(c c12Case, bubble bool, st *vk.Stats) (clause, detail string) {
 	ctx, cancel := context.WithCancel(context.Background())
 	x.ctx = ctx
 	x.rt = tmstate.NewStandardRoundTimer(ctx, c.Strat.build())
+	if !bubble {
+		done := make(chan struct{})
+		defer close(done)
+		go func() {
+			tick := time.NewTicker(time.Second)
+			defer tick.Stop()
+			last, same := int64(-1), 0
+			for {
+				select {
+				case <-done:
+					return
+				case <-tick.C:
+				}
+				n := x.calls.Load()
+				if n%2 == 1 && n == last {
+					same++
+				} else {
+					last, same = n, 0
+				}
+				if same >= c12BlockedTicks {
+					x.blocked.Store(true)
+					cancel()
+					return
+				}
+			}
+		}()
+	}
 	x.run(c)
 	cancel()
 	x.rt.Wait()
